@@ -708,6 +708,11 @@ func (m *Machine) global(g *ssa.Global) *Cell {
 		return c
 	}
 	c := m.newCell(zero(g.Type().(*types.Pointer).Elem()))
+	if g.Pkg != nil {
+		if init, ok := globalInits[g.Pkg.Pkg.Path()+"."+g.Name()]; ok {
+			c.V = init(m)
+		}
+	}
 	m.globals[g] = c
 	return c
 }
@@ -809,8 +814,9 @@ func (m *Machine) callClosure(fn *ssa.Function, env []Value, args []Value) (resu
 			// already (being) initialised via ensureInit
 		}
 	}
-	if fn.Synthetic != "" && pkgPath == "" {
-		// bound-method closures and thunks have no package; allow
+	if fn.Synthetic != "" && (pkgPath == "" || strings.HasPrefix(fn.Synthetic, "bound method wrapper") || strings.HasPrefix(fn.Synthetic, "wrapper for") || strings.HasPrefix(fn.Synthetic, "thunk for")) {
+		// bound-method closures, thunks and promotion wrappers only forward to
+		// their target, which is checked itself
 	} else if !execPackage(pkgPath) && !(fn.Parent() != nil) {
 		// environment stub supplied by the harness files of the calling
 		// package: vfStub_<pkg>_<Func>
